@@ -89,7 +89,9 @@ func (c *celValidator) Err() string {
 		"[@LEGACYERRVAR]", legacyErrVarName,
 		"[@FIELD]", c.FieldName(),
 		"[@PATH]", c.FieldPath().String(),
-		"[@EXPRESSION]", c.expression,
+		// The expression ends up inside a Go string literal (the Reason): escape
+		// backslashes and double quotes, as in value == "admin".
+		"[@EXPRESSION]", strings.NewReplacer(`\`, `\\`, `"`, `\"`).Replace(c.expression),
 		"[@TYPE]", c.ruleName,
 	)
 
